@@ -137,11 +137,39 @@ func specGenuineER6(s *icmpDriver, p *packets.FrameParser, t uint8) bool {
 //@ ensures[C01.fresh]       ret0 != nil ==> fresh(ret0)
 //@ modifies s.mu, ghost clock
 
+//@ func newICMPDriver
+//@ safety C10
+//@ ensures[drv.new]  ret0 != nil && fresh(ret0) && ret0.sink == sink && ret0.source == source
+//@ modifies global curEchoID
+
+//@ func (*icmpDriver).Close
+//@ safety C10
+//@ requires[C10.drv.close.open] s != nil && s.source != nil && s.sink != nil && ref(s.source) != ref(s.sink) && selb(isOpen, ref(s.source)) && selb(isOpen, ref(s.sink))
+//@ ensures[C10.drv.close]   !selb(isOpen, ref(s.source)) && !selb(isOpen, ref(s.sink))
+//@ ensures[C10.drv.frame]   forallint(h, h != ref(s.source) && h != ref(s.sink) ==> selb(isOpen, h) == old(selb(isOpen, h)) && sel(closeN, h) == old(sel(closeN, h)))
+//@ modifies ghost isOpen, ghost closeN
+
+// The entry point: every handle opened by the run (the UDP socket used for local address discovery, the capture source
+// and the raw sink) is closed again on every path, handles that were open before are left alone, and an error comes
+// with no result. Handles are open whenever the engine runs (they are closed only by the deferred driver.Close()).
+//@ func runICMPTraceroute
+//@ safety C10
+//@ requires[pre.ctx]          ctx != nil && sendN >= 0
+//@ ensures[C10.icmp.atom]     ret1 != nil ==> ret0 == nil
+//@ ensures[C10.icmp.result]   ret1 == nil ==> ret0 != nil
+//@ ensures[C10.icmp.closed]   forallint(h, !old(selb(isOpen, h)) ==> !selb(isOpen, h))
+//@ ensures[C10.icmp.others]   forallint(h, old(selb(isOpen, h)) ==> selb(isOpen, h) && sel(closeN, h) == old(sel(closeN, h)))
+//@ before TracerouteParallel assert[C10.icmp.open] selb(isOpen, ref(driver.source)) && selb(isOpen, ref(driver.sink))
+//@ modifies *, ghost isOpen, ghost closeN, ghost clock, ghost sendN, ghost sendLog, ghost sendClock
+
 //@ func RunICMPTraceroute
-//@ trusted pending: entry point not yet verified against this contract (C10 work item)
-//@ ensures[C10.entry.atom]  ret1 != nil ==> ret0 == nil
-//@ ensures[C03.entry.hops]  ret1 == nil ==> ret0 != nil && forall(i, 0, len(ret0.Hops), ret0.Hops[i] != nil)
-//@ modifies *
+//@ safety C10
+//@ requires[pre.ctx]          ctx != nil && sendN >= 0
+//@ ensures[C10.entry.atom]    ret1 != nil ==> ret0 == nil
+//@ ensures[C03.entry.hops]    ret1 == nil ==> ret0 != nil && forall(i, 0, len(ret0.Hops), ret0.Hops[i] != nil)
+//@ ensures[C10.entry.closed]  forallint(h, !old(selb(isOpen, h)) ==> !selb(isOpen, h))
+//@ ensures[C10.entry.others]  forallint(h, old(selb(isOpen, h)) ==> selb(isOpen, h) && sel(closeN, h) == old(sel(closeN, h)))
+//@ modifies *, ghost isOpen, ghost closeN, ghost clock, ghost sendN, ghost sendLog, ghost sendClock
 
 //@ func (*icmpDriver).storeProbe
 //@ inline
